@@ -90,6 +90,11 @@ func vfC04Enabled(chunkedX bool) func(hist []vfOp) []vfOp {
 		if has["/x"] && !reopened {
 			out = append(out, vfOp{Op: "reopen"})
 		}
+		// the root group is an object too: a hard link to it (if the library accepts one) adds
+		// a reference count to the root header, which sits in front of the first object created
+		if has["/x"] && !has["/lroot"] {
+			out = append(out, vfOp{Op: "hardlink", Path: "/lroot", Target: "/"})
+		}
 		if has["/g"] {
 			out = append(out, vfOp{Op: "attr", Path: "/g", Name: "a", Value: "s40"})
 			if !has["/lg"] {
